@@ -59,9 +59,9 @@ CHECKS = {
              "C07_derived_ops (<=, >, >= as composed), C07_strict_weak_order (< is the lexicographic order of nested values over "
              "the leading dimension recursively: irreflexive, asymmetric, transitive, incomparable operands have equal values, "
              "hence transitivity of incomparability), C07_trichotomy (non-empty zero-based operands of equal rank: exactly one of "
-             "a<b, a==b, b<a, and == iff values equal), C07_prefix_smaller; all for any ranks, extents, layouts (the value "
-             "abstraction forgets strides and base). Tie: all operators on three views of equal rank with independent layouts, on "
-             "owning copies and mixed, against the extracted model, plus model-independent monitors (negation, symmetry, "
+             "a<b, a==b, b<a, and == iff values equal), C07_prefix_smaller; all for any ranks (rank 0 = a leaf), extents, layouts (the value "
+             "abstraction forgets strides and base). Tie: all operators on three views of equal rank 0..4 with independent layouts, on "
+             "owning copies and mixed (owning, double elements, pointer-to-const views, array_cref, const arrays), against the extracted model, plus model-independent monitors (negation, symmetry, "
              "trichotomy, transitivity, ownership independence). Empty operands: only ==/!= consistency, as the property says.",
         design_ref="5/C07", technique="Coq proof (lexicographic order on uniform-depth trees is a strict total order, by induction "
                                       "on depth and lists; shape-regular trees are determined by their flat sequence) + "
